@@ -74,6 +74,15 @@ def enumerate_cases(tier: str):
                     yield {"kind": "gate", "version": version, "how": how, "cmd": 4, "type": mtype, "ack": ack}
 
 
+    # one gateway object, every type probed under version A, then again after the gateway reported version B
+    reports = (None, "1.4", "1.5.1", "2.0.0", "2.1.1", "2.2.0", "2.3.2")
+    for first in reports:
+        for then in reports[1:]:
+            for mode in ("fresh", "persistent"):
+                ops = ([] if first is None else [["rx", f"0;255;3;0;2;{first}\n"]]) + [["probe", "all"], ["rx", f"0;255;3;0;2;{then}\n"], ["probe", "all"]]
+                yield {"kind": "hist", "listen_mode": mode, "ops": ops}
+
+
 _component = st.one_of(st.integers(0, 12), st.integers(0, 12), st.integers(0, 10**6))
 release_text = st.lists(_component, min_size=2, max_size=4).map(lambda parts: ".".join(str(p) for p in parts))
 common_release = st.sampled_from(("1.4", "1.5", "2.0", "2.1", "2.2", "2.2.0", "2.3.2", "2.1.1", "2.0.0", "1.5.0", "1.4.1", "1.0", "3.0.0", "2.3.2.1"))
@@ -97,6 +106,9 @@ def _hist_ops():
                     ["rx", "junk\n"],
                     ["session"],
                     ["session"],
+                    ["probe", "edge"],
+                    ["probe", "edge"],
+                    ["probe", "all"],
                     ["bystander", "2.2.0"],
                     ["bystander", "1.5.4"],
                     ["bystander", ""],
@@ -118,6 +130,7 @@ def strategy(tier: str):
     )
 
 
+ALL_PROBES = tuple((3, t) for t in range(-1, 37) if t != 2) + tuple((4, t) for t in range(-1, 8))
 PROBES = ((3, 14), (3, 15), (3, 17), (3, 18), (3, 28), (3, 29), (3, 33), (3, 34), (4, 5), (4, 6))
 
 
@@ -224,10 +237,33 @@ def _run_hist(case: dict) -> Outcome:
         async def deliver(line: str):
             return await (listener.next(line) if listener else env.rx(gateway, line))
 
+        async def probe_rules(where: str, probes) -> Outcome | None:
+            reported = gateway.protocol_version
+            want = "1.4" if reported is None else ref_protocol(reported)
+            if want is None:
+                return None
+            if 1 not in gateway.nodes:
+                env.install_registry(gateway.nodes, {"1": {}})
+            for pidx, (cmd, mtype) in enumerate(probes):
+                status, value = await deliver(f"1;255;{cmd};{pidx % 2};{mtype};1\n")
+                outcome = classify(status, value)
+                if _supported(want, cmd, mtype) and outcome == "unsupported":
+                    return fail(f"rules-in-force:refuses:{want}", f"{where}, version {reported!r}: type {cmd}/{mtype} exists in {want} but is refused")
+                if not _supported(want, cmd, mtype) and outcome != "unsupported":
+                    return fail(f"rules-in-force:accepts:{want}", f"{where}, version {reported!r}: type {cmd}/{mtype} not in {want} but gave {outcome}")
+            return None
+
         in_session = False
         bystanders: list = []
         for idx, op in enumerate(ops):
             before = gateway.protocol_version
+            if op[0] == "probe":
+                # the same gateway object is asked about the same types again and again while its version changes
+                stats["probes"] = stats.get("probes", 0) + 1
+                bad = await probe_rules(f"step {idx} probe", ALL_PROBES if op[1] == "all" else PROBES)
+                if bad is not None:
+                    return bad
+                continue
             if op[0] == "bystander":
                 # another gateway object in the same process (say serial + MQTT in one controller) lives its own life
                 other, _ot = env.make_gateway(None)
@@ -279,14 +315,7 @@ def _run_hist(case: dict) -> Outcome:
         asked = any(line == "77;255;3;0;19;\n" for _s, line in _t.writes[before_writes:])
         if asked != want.startswith("2"):
             return fail(f"handlers-in-force:{want}", f"after history, version {reported!r} (rules {want}): set from unknown node 77 {'wrote' if asked else 'did not write'} a presentation request")
-        for pidx, (cmd, mtype) in enumerate(PROBES):
-            status, value = await deliver(f"1;255;{cmd};{pidx % 2};{mtype};1\n")
-            outcome = classify(status, value)
-            if _supported(want, cmd, mtype) and outcome == "unsupported":
-                return fail(f"rules-in-force:refuses:{want}", f"after history, version {reported!r}: type {cmd}/{mtype} exists in {want} but is refused")
-            if not _supported(want, cmd, mtype) and outcome != "unsupported":
-                return fail(f"rules-in-force:accepts:{want}", f"after history, version {reported!r}: type {cmd}/{mtype} not in {want} but gave {outcome}")
-        return None
+        return await probe_rules("after history", PROBES)
 
     bad = env.run(go())
     classes = ("hist", f"reports={min(len(reports), 5)}") + (("hist-rejected-report",) if stats["rejected"] else ())
